@@ -1,5 +1,9 @@
 """Deep structural snapshot of a kernpy Document and of the module-level constants (C14, C15, C19, C20)."""
+import re
+
 import kernpy as kp
+
+_ADDR = re.compile(r'0x[0-9a-fA-F]+')
 
 
 def _tok(t):
@@ -16,7 +20,7 @@ def _tok(t):
         elif a == 'bounding_box':
             dd[a] = (v.from_x, v.from_y, v.to_x, v.to_y)
         else:
-            dd[a] = repr(v)
+            dd[a] = _ADDR.sub('0x', repr(v))  # object addresses inside error messages are not document state
     return [type(t).__name__, sorted(dd.items(), key=lambda kv: kv[0])]
 
 
